@@ -232,8 +232,9 @@ def gen_spec(rng, audit_types=("CARD_COMPARISON", "ONEAUDIT", "POLLING"), n_cont
                 cd["tally_pool"] = new
         if ph_pool[0] == old:
             ph_pool[0] = new
+    amc = max_cards + rng.choice((0, 4, 100)) if rng.random() < 0.3 else None
     sn = {"kind": "sha256", "seed": rng.randrange(10 ** 12)} if rng.random() < 0.6 else {"kind": "explicit", "nums": None}
-    return {"use_style": use_style, "max_cards": max_cards, "contests": contests, "cards": cards, "phantom_pool": ph_pool,
+    return {"audit_max_cards": amc, "use_style": use_style, "max_cards": max_cards, "contests": contests, "cards": cards, "phantom_pool": ph_pool,
             "mvrs": mvrs, "sample_nums": sn, "direct_supermajority": rng.random() < 0.5,
             "sn_mode": rng.choice(("list_order", "reverse", "shuffled", "contest_first")), "sn_step": rng.choice((1, 1, 17, 0.5)), **({"sn_base": 2 ** 255 + 12345, "sn_step": 2 ** 128} if rng.random() < 0.2 else {})}
 
@@ -317,6 +318,9 @@ class Sim:
                                   "error_rate_1": 0.001, "error_rate_2": 0.0, "reps": None,
                                   "strata": {"stratum_1": {"max_cards": spec["max_cards"], "use_style": spec["use_style"],
                                                            "replacement": False}}})
+        if spec.get("audit_max_cards") is not None:
+            # the audit-wide attribute (e.g. a jurisdiction-wide count); the stratum's own bound is what governs its cards
+            self.audit.max_cards = spec["audit_max_cards"]
         d = {}
         for cid, c in spec["contests"].items():
             scf = {"plurality": C.SOCIAL_CHOICE_FUNCTION.PLURALITY, "supermajority": C.SOCIAL_CHOICE_FUNCTION.SUPERMAJORITY,
